@@ -280,7 +280,10 @@ def judge_one(ctx, prefix, prog, family, w, tname, base_canon=None):
     l2m = compare_structure(ctx, prefix, circ, net, tname, rounding_boundary(prog))
     if l2m is not None:
         solve_and_compare(ctx, prefix, circ, net, l2m, 'dc' if family == 'net' else family, w, tname)
-        parser_and_network_clause(ctx, prefix, d, circ, net, l2m, family)
+        if rounding_boundary(prog):
+            ctx.count('set_aside_parser_clause_on_rounding_boundary')      # the recorded known mechanism; judged by compare_structure above
+        else:
+            parser_and_network_clause(ctx, prefix, d, circ, net, l2m, family)
     return net
 
 
